@@ -45,3 +45,39 @@ static Reg r_rewrite("rewrite_mem", [](std::vector<std::string> const& a) -> std
     }
     return "ok file";
 });
+
+// job_locale <classic|comma> <args...> : QPDFJob run in-process under a global C++ locale whose numeric punctuation is
+// not the classic one (decimal comma, digit grouping) - what a host application may install with std::locale::global()
+#include <qpdf/QPDFJob.hh>
+#include <locale>
+namespace
+{
+    struct CommaPunct: std::numpunct<char>
+    {
+        char do_decimal_point() const override { return ','; }
+        char do_thousands_sep() const override { return '.'; }
+        std::string do_grouping() const override { return "\3"; }
+    };
+} // namespace
+static Reg r_job_locale("job_locale", [](std::vector<std::string> const& a) -> std::string {
+    std::locale saved = std::locale();
+    if (a.at(0) == "comma") {
+        std::locale::global(std::locale(std::locale::classic(), new CommaPunct));
+    }
+    std::string res;
+    try {
+        std::vector<std::string> args(a.begin() + 1, a.end());
+        std::vector<char const*> argv;
+        argv.push_back("qpdf");
+        for (auto const& s: args) argv.push_back(s.c_str());
+        argv.push_back(nullptr);
+        QPDFJob j;
+        j.initializeFromArgv(argv.data());
+        j.run();
+        res = "ok " + std::to_string(j.getExitCode());
+    } catch (std::exception& e) {
+        res = std::string("exc ") + e.what();
+    }
+    std::locale::global(saved);
+    return res;
+});
